@@ -34,6 +34,7 @@ def run(idx, rep, tier):
     c18.r5(_Proxy(rep, "R2"), rep) if False else _r2(idx, rep)
     c08.serial(idx, rep, "R3", aspects=("protocol", "save-once", "complete-wiring", "result-wiring"))
     c08.byline(idx, rep, "R3", "R3", tier, scenarios=("plain",), aspects=("schedule",))
+    c08.byline_collect(idx, rep, "R3")
     # next_paths(collect=True): every line a member yields is appended to that member's result before it is handed to the caller
     from . import runs_model as RM
     fi, paths = RM.serial_rows(idx, "next_paths", collect=True)
